@@ -5,6 +5,7 @@
 //! (`swimos_runtime::timeout_coord`, reached through `verif_hooks`) with a counting waker, compared step by
 //! step with a reference model (set of outstanding votes + dropped parties + unanimity latch); random
 //! longer sequences; and a real-thread stress tier whose verdict only uses schedule independent invariants.
+mod dlrt;
 mod model;
 mod threads;
 mod tree;
@@ -316,6 +317,7 @@ fn main() {
     ctx.assume("sequentially consistent interleavings only: each vote/rescind/drop is one atomic RMW (or CAS loop) so operation sequences cover all SC interleavings of those; weak-memory reorderings of the Relaxed orderings are not reachable on x86 and not claimed");
     ctx.assume("the three-step Receiver::poll (load, register, load) is atomic in the enumerated tiers; its interleavings with votes are only sampled by the threads tier");
     ctx.assume("'the runtime stops' is observed as the Receiver future becoming ready (the runtimes select on it); 'task disappears' is observed as dropping its Voter");
+    ctx.assume("dl-runtime: the real Value/MapDownlinkRuntime polled by the harness on a paused clock (C07's dlrt engine) with a legal remote lane; histories: initial consumers, they stop listening / detach, the clock passes empty_timeout (read task votes; the write side is often kept occupied by a consumer that only stopped listening), late consumers attach (mostly without SYNC), the write side becomes idle, the clock passes empty_timeout again; no op stops the runtime or closes the link, so the runtime future can only finish by the unanimous inactivity vote; non-trivial = a consumer attached after the read side had been without listeners for more than empty_timeout on a linked downlink");
     ctx.assume("a party whose vote was withdrawn and then disappears counts as a task that 'disappears without voting' (it has no outstanding vote)");
 
     let (d2, d3) = ctx.pick((10u8, 8u8), (13u8, 11u8));
@@ -344,5 +346,8 @@ fn main() {
     ctx.prop("random", n, || seq_strategy(60), check_seq);
     let n = ctx.pick(30_000, 1_000_000);
     ctx.prop("threads", n, threads::strategy, threads::check);
+    // the clause against the real downlink runtime (read task + write task + attachment task + coordinator)
+    let n = ctx.pick(1_000_000, 30_000_000);
+    ctx.prop("dl-runtime", n, dlrt::strategy, dlrt::check);
     ctx.finish();
 }
